@@ -16,7 +16,7 @@ PROPS = {
     'C15': ['contracts.codec', 'contracts.messages_simple', 'contracts.extensions_codec', 'contracts.x509_dc', 'contracts.ske_write'],
     'C08': ['contracts.codec', 'contracts.messages_simple', 'contracts.m2_recordlayer', 'contracts.m2_getmsg', 'contracts.m2_posthandshake', 'contracts.m2_recordio', 'contracts.m2_server', 'contracts.transport', 'contracts.m2_parse_safety', 'contracts.m2_decompress', 'contracts.m2_ext_none', 'contracts.extensions_codec', 'contracts.links', 'contracts.m2_sslv2_record'],
     'C14': ['contracts.m2_recordlayer', 'contracts.m2_getmsg', 'contracts.defragmenter', 'contracts.transport', 'contracts.m2_asyncsm', 'contracts.links'],
-    'C16': ['contracts.m2_recordlayer', 'contracts.m2_getmsg', 'contracts.m2_posthandshake', 'contracts.sendmsg', 'contracts.m2_tls13_states'],
+    'C16': ['contracts.m2_recordlayer', 'contracts.m2_getmsg', 'contracts.m2_posthandshake', 'contracts.sendmsg', 'contracts.m2_tls13_states', 'contracts.m2_server13'],
     'C17': ['contracts.m2_recordlayer', 'contracts.m2_getmsg', 'contracts.m2_posthandshake', 'contracts.transport', 'contracts.links', 'contracts.m2_server', 'contracts.m2_parse_safety'],
     'C11': ['contracts.c12_cbc_check', 'contracts.rsa', 'contracts.m2_server', 'contracts.small_extras'],
     'C10': ['contracts.c12_cbc_check', 'contracts.rsa', 'contracts.kex', 'contracts.m2_signverify', 'contracts.small_extras', 'contracts.ecc_tables', 'contracts.links'],
